@@ -10,6 +10,7 @@
 #include "draco/core/decoder_buffer.h"
 #include "draco/core/draco_types.h"
 #include "draco/core/varint_decoding.h"
+#include "draco/mesh/mesh.h"
 
 using namespace draco;
 
@@ -112,5 +113,25 @@ int main() {
   printf("\n");
   printf("varintMaxLen %d,%d,%d,%d\n", max_varint_len<uint8_t>(), max_varint_len<uint16_t>(),
          max_varint_len<uint32_t>(), max_varint_len<uint64_t>());
+  // C05: further constants that define the bitstream (frozen copy in lean/Frozen/Constants.lean)
+  P(kDracoPointCloudBitstreamVersion);
+  P(kDracoMeshBitstreamVersion);
+  P(NUM_ENCODED_GEOMETRY_TYPES);
+  P(PREDICTION_UNDEFINED);
+  P(NUM_PREDICTION_SCHEME_TRANSFORM_TYPES);
+  P(MESH_VERTEX_ATTRIBUTE);
+  P(MESH_CORNER_ATTRIBUTE);
+  P(MESH_FACE_ATTRIBUTE);
+  P(TOPOLOGY_INIT_FACE);
+  P(TOPOLOGY_INVALID);
+  P(EDGEBREAKER_SYMBOL_C);
+  P(EDGEBREAKER_SYMBOL_S);
+  P(EDGEBREAKER_SYMBOL_L);
+  P(EDGEBREAKER_SYMBOL_R);
+  P(EDGEBREAKER_SYMBOL_E);
+  P(EDGEBREAKER_SYMBOL_INVALID);
+  P(LEFT_FACE_EDGE);
+  P(RIGHT_FACE_EDGE);
+  P(EDGEBREAKER_VALENCE_MODE_2_7);
   return 0;
 }
